@@ -24,14 +24,17 @@ def rd(len0, buflen, mode="functional", timeout=120, tier="both", failed=0):
                 stubs=["source read callback: arbitrary count/bytes", "memmove/memcpy: byte loops"])
 
 
-SKIP = dict(name="skip.kinds", src="C16/skip.c", unwind=6, unwind_is_property=True, units=["lib/lha_input_stream.c:file_source_skip,file_source_skip_fallback,file_source_read,lha_input_stream_skip"], timeout=300, mem_gb=4,
+SKIP = dict(name="skip.kinds", src="C16/skip.c", unwind=6, optional_witnesses=True, unwind_is_property=True, units=["lib/lha_input_stream.c:file_source_skip,file_source_skip_fallback,file_source_read,lha_input_stream_skip"], timeout=300, mem_gb=4,
             bounds="any position/length (< 2^40), skip distance 0..70 (three 32-byte pieces), following read of 1..4 bytes",
-            stubs=["FILE: (position, length, seekable, eof) model behind fread/ftell/fseek/feof; fseek may move past the end"])
+            stubs=["FILE: (position, length, seekable, eof) model behind fread/ftell/fseek/feof (fread counts whole items of the given size); fseek may move past the end"])
+SKIP_FIX = [dict(SKIP, name="skip.kinds.d%d" % d, defines=["DFIX=%d" % d], unwind=d // 32 + 6,
+                 tier=("thorough" if d > 512 else "both"), timeout=(1200 if d > 512 else 300),
+                 bounds="any position/length (< 2^40), skip distance %d (concrete), following read of 1..4 bytes" % d) for d in (255, 256, 257, 512, 1024)]
 Q_ITER = [(0, 24), (0, 13), (0, 12), (0, 1), (12, 12), (12, 1), (5, 9), (7, 17), (3, -1), (3, 0)]
 ALL_ITER = [(l, r) for l in range(13) for r in range(-1, 25 - l)]
 Q_READ = [(24, 22), (13, 22), (0, 22), (24, 24), (5, 3), (0, 0), (1, 1)]
 HARNESSES = ([it(len0=l, ret=r, timeout=120) for l, r in Q_ITER] + [it("safety", len0=l, ret=r, timeout=120) for l, r in [(0, 24), (12, 12), (7, 17)]] +
-             [rd(l, b) for l, b in Q_READ] + [rd(7, 9, failed=1)] + [rd(l, b, "safety") for l, b in [(24, 22), (13, 22), (5, 3)]] + [SKIP] +
+             [rd(l, b) for l, b in Q_READ] + [rd(7, 9, failed=1)] + [rd(l, b, "safety") for l, b in [(24, 22), (13, 22), (5, 3)]] + [SKIP] + SKIP_FIX +
              [it(len0=l, ret=r, timeout=300, tier="thorough") for l, r in ALL_ITER if (l, r) not in Q_ITER])
 MAIN = dict(name="main.cmd", src="C16/main.c", unwind=6, defines=["printf=verif_printf_noop"], units=["src/main.c:main,do_command,parse_command_line,mode_for_char,parse_options,init_options"], timeout=300, mem_gb=4,
             bounds="command word of <= 3 arbitrary bytes, archive name of 1-2 arbitrary bytes, fopen success/failure, command result arbitrary",
